@@ -3,6 +3,7 @@ import base64, json, os
 import vlib
 
 PROP_FILES = ['Properties/C09']
+EXTRA_OBLIGATION_FILES = ['Proofs/AtomFront']
 TRUSTED = [
     'Coq 8.16.1 kernel incl. vm_compute; theorems C09_*: Closed under the global context (X25519, AES-GCM and the net/http+base64 black box are universally quantified parameters of the decision model)',
     'hand-written models coq/Model/FirstPacket.v (connReadLine, readFirstPacket, goWeb as a relay), coq/Model/Hello.v (parseClientHello / parseExtensions / parseKeyShare with Go slice capacity semantics and explicit Panic outcome; unmarshalClientHello; unmarshalHidden), coq/Model/Dispatch.v (AuthFirstPacket + dispatchConnection decision)',
@@ -866,3 +867,9 @@ MANIFEST = dict(
     level_text='C09_consumed_exact, C09_target_gets_everything, C09_segmentation, C09_parsers_total, C09_no_server_byte, C09_one_outcome (relayed or answered, never both; relayed exactly on a Redirect decision or a redirecting first-packet error), C09_unknown_method_is_web are proved in Coq for every peer byte stream, every ending and every buffer size >= 5 (the generated constant 3000 is an instance), every X25519/AES-GCM/http black box. The models are hand-written; on every run ~2000 (quick) scenarios - every first byte, every record-length class, genuine browser hellos in 9 authorisation variants, truncated/mutated/replayed hellos, HTTP heads with bogus hidden headers and 2990..3010-byte lines, under up to 6 segmentations and 8 target scripts incl. dial and write failure - are executed on the real dispatchConnection and on the extracted model and compared byte for byte (target input, peer output, who closed).',
     level_note='Trusted: Coq kernel, extraction, the scripted in-memory connections (deadline emulation), Go tables for X25519 and for net/http+base64. Half-close scenarios are compared in relaxed form (observation O2).',
     design_ref='DESIGN.md section 6, C09')
+
+
+# generated obligation of the front door (Proofs/AtomFront.v): every connection's first packet, parsed hello and reply are
+# values of that connection alone - no byte buffer at package level, no pooled object (or a view of it) used after its
+# Put, no goroutine sharing a buffer with its spawner
+TRUSTED = list(TRUSTED) + ['generated obligations Proofs/AtomFront.v about coq/Gen/Atomicity.v (tools/lockscan, go/ast: package-level variables with the kind of their type, sync.Pool.Put sites with the later mentions of the object or of a local view of its memory - slicings, dereferences, appends, local function literals that mention it, results handed out by a function whose Put is deferred -, variables shared by go statements); re-proved on every run, in a private re-generated copy under VERIF_EXTRA_OVERLAY']
